@@ -33,8 +33,12 @@ def r2_ticks(ctx, F):
     ctx.floor("C15.R2", "call-family handlers (reach with_call_stack)", len(fam), 5)
     ctx.info["call_family"] = sorted(h.qpath for h in fam)
 
+    from kern import must_call_summary
+    tick_wrappers = must_call_summary(F, r"Evaluator::<'v, 'a, 'e>::report_forward_progress$")
+
     def is_tick(c):
-        return (not c.indirect) and c.callee_uid() == tick.uid
+        return (not c.indirect) and (c.callee_uid() == tick.uid or (
+            c.callee_uid() in tick_wrappers and c.callee_uid() not in enters))
 
     visited = {}
 
@@ -158,25 +162,49 @@ def r1_frames(ctx, F):
                   "unbounded recursion through it overflows the native stack instead of failing with a "
                   "stack-overflow error" % c.name, fn=f, line=c.line)
 
-    # push checks the bound before writing
+    # push checks the bound before writing: on the edge where count >= len holds the error is built, the frame and
+    # the counter are written only on the other edge (the comparison may be written in any of its equivalent forms)
+    from kern import bool_local_edges
     push = F.one(r"cheap_call_stack::CheapCallStack::<'v>::push$")
-    cmp_ = [st for st in push.stmts if st.kind.startswith("binop Ge") or st.kind.startswith("binop Lt")
-            or st.kind.startswith("binop Gt") or st.kind.startswith("binop Le") or st.kind.startswith("binop Eq")]
     writes = [st for st in push.stmts if "{eval::runtime::cheap_call_stack::CheapCallStack::count}" in st.lhs
               and st.bb not in push.cleanup]
-    ge = [st for st in cmp_ if st.kind.startswith("binop Ge") and "count" in (st.ops[0] + push_src(push, st))]
     errs = [st for st in push.stmts if "StackOverflow" in st.kind]
     good = False
-    if ge and errs and writes:
-        # the error is constructed only on the true side of the comparison; the count write only on the false side
-        tl = {ge[0].lhs_local}
-        te, _ = branch_edges(F, push, tl, "true", via_calls=re.compile(r"(intrinsics|hint)::unlikely$"))
-        fe, _ = branch_edges(F, push, tl, "false", via_calls=re.compile(r"(intrinsics|hint)::unlikely$"))
-        good = bool(te) and bool(fe) and all(st.bb not in push.reach(0, cut_edges=te) for st in errs) and all(
-            st.bb not in push.reach(0, cut_edges=fe) for st in writes)
+    for st in push.stmts:
+        m = re.match(r"binop (Ge|Le|Lt|Gt)", st.kind)
+        if not m or st.bb in push.cleanup:
+            continue
+        ops = st.ops[0].split(" , ")
+        if len(ops) != 2:
+            continue
+
+        def what(op):
+            os_ = origins(push, op, pass_calls=None)
+            txt = " ".join(push_src(push, type("S", (), {"text": lambda s_, o=op: o})()) for _ in [0]) + " " + op
+            if any(o[0] == "call" and re.search(r"::len$", o[1].name) for o in os_):
+                return "len"
+            if "CheapCallStack::count}" in txt or any(
+                    "CheapCallStack::count}" in d.text() for l in re.findall(r"_\d+", op) for d in push.stmts if d.lhs == l):
+                return "count"
+            return "?"
+        a, b = what(ops[0]), what(ops[1])
+        kind = m.group(1)
+        over_on = None  # truth value of the comparison on which count >= len holds
+        if (a, b) == ("count", "len"):
+            over_on = {"Ge": "true", "Lt": "false"}.get(kind)
+        elif (a, b) == ("len", "count"):
+            over_on = {"Le": "true", "Gt": "false"}.get(kind)
+        if over_on is None:
+            continue
+        oe = bool_local_edges(push, st.lhs_local, over_on)
+        ne = bool_local_edges(push, st.lhs_local, "false" if over_on == "true" else "true")
+        if oe and ne and errs and writes and all(e.bb not in push.reach(0, cut_edges=oe) for e in errs) and all(
+                w.bb not in push.reach(0, cut_edges=ne) for w in writes):
+            good = True
     ctx.check(good, "C15.R1", "push:bound-checked-before-write",
-              "CheapCallStack::push returns StackOverflow on the `count >= len` edge and writes only on the other",
-              "CheapCallStack::push no longer tests `count >= stack.len()` before writing the frame", fn=push)
+              "CheapCallStack::push returns StackOverflow on the edge where count >= len and writes only on the other",
+              "CheapCallStack::push no longer tests `count >= stack.len()` (in any equivalent form) before writing the "
+              "frame", fn=push)
 
 
 def push_src(fn, st):
